@@ -12,6 +12,7 @@ def main():
     ap = argparse.ArgumentParser()
     ap.add_argument("--src", required=True)
     ap.add_argument("--history", action="append", default=[])
+    ap.add_argument("--history-file", action="append", default=[], help="compiled first, as a FILE (imports resolve next to it)")
     ap.add_argument("--budget", type=int, default=0)
     ap.add_argument("--poles", default=None)
     ap.add_argument("--noopt", action="store_true")
@@ -23,6 +24,7 @@ def main():
     from fv import harness, canon
     a.src = os.path.abspath(a.src)
     a.history = [os.path.abspath(h) for h in a.history]
+    a.history_file = [os.path.abspath(h) for h in a.history_file]
     if a.cwd:
         os.chdir(a.cwd)
     harness.install()
@@ -35,6 +37,11 @@ def main():
         from dsl_compiler.src.common.constants import CompilerConfig
         import dataclasses
         cfg = dataclasses.replace(CompilerConfig(), layout_solver_time_limit=a.budget)
+    for hsrc in a.history_file:
+        try:
+            harness.compile_src(open(hsrc).read(), source_name=hsrc)
+        except harness.Rejected:
+            pass
     for hsrc in a.history:
         try:
             harness.compile_src(open(hsrc).read())
